@@ -38,6 +38,14 @@ def run_check(prop, repo, cache=None, tier="quick"):
         line = line.strip()
         if line.startswith("violation "):
             viol.append(line[len("violation "):])
+    if r.returncode not in (0, 1):
+        # keep the evidence of an analysis error (exit 2): these must never be transient
+        try:
+            with open("/tmp/verif-exit%d-%s-%d.log" % (r.returncode, prop, os.getpid()), "w") as fh:
+                fh.write("repo=%s cache=%s\n" % (repo, cache))
+                fh.write(r.stdout[-6000:] + "\n--- stderr ---\n" + r.stderr[-6000:])
+        except OSError:
+            pass
     return r.returncode, viol, r.stdout + r.stderr
 
 
